@@ -190,7 +190,9 @@ class Loop:
     namespace L of local variables at the loop head (L.i = hidden index of a
     for-loop over a symbolic sequence). variant(c, L): Int term."""
 
-    def __init__(self, inv, variant=None, havoc_fields=(), kinds=None, note=None):
+    def __init__(self, inv, variant=None, havoc_fields=(), kinds=None, note=None,
+                 havoc_hook=None):
+        self.havoc_hook = havoc_hook
         self.inv = inv
         self.variant = variant
         self.havoc_fields = tuple(havoc_fields)
@@ -264,11 +266,16 @@ class Loop:
             ref = st.env.get(objname)
             if objname == 'main':
                 ref = V('ref', cls='Main', oid='main')
+            elif objname.startswith('cls:'):
+                ref = V('class', py=objname[4:])
             oid = ref.oid if ref.k == 'ref' else 'cls:' + ref.py
             cls = ref.cls if ref.k == 'ref' else ref.py
             kind = eng.contract.field_kind(cls, field)
             st.objs.setdefault(oid, {})[field] = eng.sym_of_kind(
                 kind, '%s.%s@loop%d!%d' % (oid, field, ordinal, next(eng.counter)))
+        if self.havoc_hook:
+            self.havoc_hook(eng, st)
+        st.trace.append(('loop-head', ordinal))
         # 3. assume invariant
         iz = st.env[idx_name].z if is_for else None
         if is_for:
